@@ -72,18 +72,24 @@ Definition timed_T : option N := match tm' with TVal T => Some T | _ => None end
 Definition time1 (s : state) (dl : option N) : Prop :=
   dl = (if b' then match tm' with TVal n => Some (now s0 + n) | _ => None end else None) /\
   now s0 <= now s /\
-  match dl with None => now s = now s0 | Some D => now s <= N.max (now s0) D end.
+  match dl with None => now s = now s0 | Some D => now s <= N.max (now s0) D end /\
+  (* alone, a thread lock that is available is taken without waiting *)
+  (tl_try ob0 t <> None -> now s = now s0).
 
 (* stage 2 (polling for the OS lock), start = a_start *)
 Definition time2 (s : state) (start : N) : Prop :=
   now s0 <= start /\ start <= now s /\
   (b' = false -> now s = now s0) /\
-  (forall T, tm' = TVal T -> start <= now s0 + T /\ now s <= start + T + poll).
+  (forall T, tm' = TVal T -> start <= now s0 + T /\ now s <= start + T + poll) /\
+  (* alone, stage 1 did not wait *)
+  start = now s0.
 
 Definition time_fin (s : state) : Prop :=
   now s0 <= now s /\
   (b' = false -> now s = now s0) /\
-  (forall T, tm' = TVal T -> now s <= now s0 + T + T + poll).
+  (forall T, tm' = TVal T -> now s <= now s0 + T + T + poll) /\
+  (* run alone (sequential use): at most ONE of the two stages waits *)
+  (forall T, tm' = TVal T -> now s <= now s0 + T + poll).
 
 Inductive Phase (s : state) : Prop :=
 | Ph1 a dl :
@@ -138,7 +144,8 @@ Inductive Blocked (s : state) : Prop :=
             (forall o', o_fd (objs s o') = o_fd (objs s0 o')) -> Blocked s
 | BlkOS a d : thr s t = mkthr p [] (PFlock a d) res0 cs0 -> b' = true -> timed_T = None -> o_fd ob0 = None ->
               tl_try ob0 t <> None -> holder s0 <> None ->
-              (forall o', o_fd (objs s o') = o_fd (objs s0 o')) -> Blocked s.
+              (forall o', o_fd (objs s o') = o_fd (objs s0 o')) ->
+              a_ok a -> Frame s (Some d) (holder s0) -> objs s o = acq_obj ob0 t -> Blocked s.
 
 Hypothesis Halive : dead s0 p = false.
 Hypothesis Hh0 : forall h, holder s0 = Some h -> (h < nextfd s0)%nat.
@@ -172,7 +179,7 @@ Ltac ev := cbn; rewrite ?upd_same; cbn.
 
 Lemma time2_fin s start : time2 s start -> time_fin s.
 Proof.
-  intros (A & B & C & D). repeat split; auto; [lia|]. intros T E. destruct (D T E). lia.
+  intros (A & B & C & D & S0). split; [lia|]. split; [auto|]. split; intros T E; destruct (D T E); lia.
 Qed.
 
 Lemma cleanup_phase s a b pcX :
@@ -207,7 +214,7 @@ Proof.
   { intros Eb HT. apply (Ph2s _ a (now s + poll)); auto.
     - ev. rewrite Ht. reflexivity.
     - apply (Frame_soft s); auto; intros; ev; rewrite ?upd_other by congruence; auto.
-    - intros T E. specialize (HT T E). destruct Htm as (A & B & C & D). destruct (D T E). lia. }
+    - intros T E. specialize (HT T E). destruct Htm as (A & B & C & D & S0). destruct (D T E). lia. }
   destruct b' eqn:Eb; cbn [negb]; [|apply Cl; auto].
   destruct tm' as [| |T] eqn:Et.
   - apply Sl; auto; intros; discriminate.
@@ -235,7 +242,7 @@ Lemma phase1_step s a dl :
 Proof.
   intros Ht Ha F Ho Htm. pose proof Ha as (Ao & Am & Ab & At & Ap & As). unfold Step_out.
   destruct (thr_facts _ _ Ht) as (Tpc & Tpr & _). pose proof (not_dead _ _ _ _ F Ht) as Hnd.
-  destruct Htm as (Edl & Hn0 & Hn).
+  destruct Htm as (Edl & Hn0 & Hn & Hfree).
   assert (En : enabled s t = if b' then tl_free_for ob0 t || match dl with Some d => d <=? now s | None => false end else true).
   { unfold enabled. rewrite Hnd, Tpc, Ab, Ao, Ho. reflexivity. }
   destruct (tl_try ob0 t) as [ob'|] eqn:Etry.
@@ -257,6 +264,7 @@ Proof.
       * repeat split; auto.
         -- intros Eb. rewrite Eb in Edl. subst dl. exact Hn.
         -- intros T ET. rewrite ET in Edl. destruct b'; subst dl; cbn; lia.
+        -- intros T ET. assert (Z : now s = now s0) by (apply Hfree; congruence). cbn. lia.
     + right. left. split; auto. eapply Ph2; auto.
       * ev. rewrite Ht. reflexivity.
       * cbn. repeat split; auto.
@@ -265,6 +273,7 @@ Proof.
       * unfold time2. cbn. repeat split; auto; try lia.
         -- intros Eb. rewrite Eb in Edl. subst dl. exact Hn.
         -- rewrite H in Edl. destruct b'; subst dl; lia.
+        -- apply Hfree. congruence.
       * congruence.
   - (* busy *)
     assert (Efail : enabled s t = true ->
@@ -280,15 +289,15 @@ Proof.
     + destruct dl as [D|].
       * destruct tm' as [| |T] eqn:ET; try discriminate. injection Edl as ->.
         destruct (now s0 + T <=? now s) eqn:EL.
-        -- left. split; auto. apply Efail; auto; [right; eauto|]. repeat split; auto; [congruence|]. intros T' E'. rewrite ET in E'. injection E' as <-. lia.
+        -- left. split; auto. apply Efail; auto; [right; eauto|]. repeat split; auto; [congruence| |]; intros T' E'; rewrite ET in E'; injection E' as <-; lia.
         -- right. right. left. split; auto. exists (now s0 + T). split; [unfold deadline; now rewrite Tpc|].
            apply (Ph1 _ a (Some (now s0 + T))); auto.
            ++ apply Frame_now; auto.
-           ++ repeat split; auto; cbn; first [lia | rewrite Eb, ET; reflexivity].
+           ++ repeat split; auto; cbn; first [lia | rewrite Eb, ET; reflexivity | intros C; congruence].
       * right. right. right. split; auto. split; [unfold deadline; now rewrite Tpc|].
         apply (BlkTL _ a); auto; [unfold timed_T; destruct tm'; auto; discriminate|].
         intros o'. destruct (Nat.eq_dec o' o) as [->|Hne]; [now rewrite Ho|now rewrite (f_obj _ _ _ F)].
-    + left. split; auto. apply Efail; auto. subst dl. repeat split; auto. intros T ET. lia.
+    + left. split; auto. apply Efail; auto. subst dl. repeat split; auto; intros T ET; lia.
 Qed.
 
 Lemma enabled_simple s pend h pc :
@@ -342,9 +351,8 @@ Proof.
   - right. right. left. split; auto. exists w. split; [unfold deadline; now rewrite Tpc|].
     apply (Ph2s _ a w); auto.
     + apply Frame_now; auto.
-    + destruct Htm as (A & B & C & D). unfold time2. cbn. repeat split; auto; try lia.
-      * apply (D T H).
-      * specialize (Hw T H). lia.
+    + destruct Htm as (A & B & C & D & S0). unfold time2. cbn. repeat split; auto; try lia;
+        first [apply (D T H)|specialize (Hw T H); lia].
 Qed.
 
 Lemma phase3_step s a d :
@@ -527,7 +535,7 @@ Theorem do_acquire_outcome s0 t o m blk tm poll skip fuel :
   let b' := fst (normalise (objs s0 o) blk tm) in
   let tm' := snd (normalise (objs s0 o) blk tm) in
   let res := do_call fuel s0 t (CAcq o m blk tm poll skip) in
-  Outcome s0 t o m b' tm' poll (fst res) (snd res).
+  Outcome s0 t o m b' tm' poll skip (fst res) (snd res).
 Proof.
   intros Hpc Hal Hpr Hh Hfo b' tm' res. unfold res.
   destruct (acquire_begin s0 t o m blk tm poll skip Hpc Hal Hpr Hfo) as (s1 & a & dl & E1 & E0 & P & _).
